@@ -11,18 +11,26 @@
 (* fault kinds: err = that call fails; short = a write of 1 byte then an   *)
 (* error (err on other calls); burst = that call and the next 13 fail;     *)
 (* nocreate = the next 12 open_new calls after that index fail (retries    *)
-(* are exhausted).  at = 0: no fault.  stall = 0: no stall.                *)
+(* are exhausted).  at = 0: no fault.  stall = 0: no stall.  wfail: which   *)
+(* events' writers fail (FormatFail in FileEmitterTrace.tla).              *)
 (***************************************************************************)
 EXTENDS Naturals, TLC, Json
 
-CONSTANTS Caps, MaxFilesSet, MaxSizeSet, ReuseSet, FaultKinds, FaultAt, Stalls
+CONSTANTS Caps, MaxFilesSet, MaxSizeSet, ReuseSet, FaultKinds, FaultAt, Stalls, WriterFails
 
 VARIABLE s
 
 Faults == {[kind |-> "none", at |-> 0]} \cup [kind : FaultKinds, at : FaultAt]
 
+\* the front half of emit (format on the caller's thread, hand-over to the channel): the
+\* writer of every `every`-th event fails, before any output ("empty") or after part of it
+\* ("partial"); every = 0: all writers succeed.  WriterFails is a set of <<every, kind>>.
+WFails == {[every |-> w[1], kind |-> w[2]] : w \in WriterFails}
+\* (tuples cannot be written in a .cfg)
+QuickWriterFails == {<<0, "none">>, <<2, "partial">>, <<3, "partial">>, <<3, "empty">>}
+
 Scenarios == [cap : Caps, maxFiles : MaxFilesSet, maxSize : MaxSizeSet, reuse : ReuseSet,
-              fault : Faults, stall : Stalls]
+              fault : Faults, stall : Stalls, wfail : WFails]
 
 Init == s \in Scenarios
 Next == UNCHANGED s
